@@ -114,8 +114,15 @@ pub fn unarmed<R>(f: impl FnOnce() -> R) -> R {
 thread_local! {
     static WAKES: RefCell<Vec<u64>> = RefCell::new(Vec::with_capacity(1024));
     static VALS: RefCell<Vec<u64>> = RefCell::new(Vec::with_capacity(1024));
-    static LIVE_VALUES: RefCell<std::collections::HashSet<u64>> = RefCell::new(Default::default());
-    static NEXT_SERIAL: Cell<u64> = Cell::new(1);
+}
+
+// live payloads: global (a value may be created on one thread and consumed on another in the
+// threaded runs)
+static LIVE_VALUES: std::sync::Mutex<Option<std::collections::HashSet<u64>>> = std::sync::Mutex::new(None);
+static NEXT_SERIAL: AtomicU64 = AtomicU64::new(1);
+fn live<R>(f: impl FnOnce(&mut std::collections::HashSet<u64>) -> R) -> R {
+    let mut g = LIVE_VALUES.lock().unwrap_or_else(|e| e.into_inner());
+    f(g.get_or_insert_with(Default::default))
 }
 
 pub const V_DELIVERED: u64 = 1;
@@ -185,12 +192,8 @@ pub struct Val {
 impl Val {
     pub fn new(tag: u64) -> Val {
         unarmed(|| {
-            let serial = NEXT_SERIAL.with(|n| {
-                let s = n.get();
-                n.set(s + 1);
-                s
-            });
-            LIVE_VALUES.with(|l| l.borrow_mut().insert(serial));
+            let serial = NEXT_SERIAL.fetch_add(1, Ordering::Relaxed);
+            live(|l| l.insert(serial));
             Val { tag, serial }
         })
     }
@@ -199,7 +202,7 @@ impl Val {
     pub fn consume(self, kind: u64) -> u64 {
         let tag = self.tag;
         unarmed(|| {
-            LIVE_VALUES.with(|l| l.borrow_mut().remove(&self.serial));
+            live(|l| l.remove(&self.serial));
         });
         log_val(kind, tag);
         std::mem::forget(self);
@@ -215,24 +218,32 @@ impl Clone for Val {
 
 impl Drop for Val {
     fn drop(&mut self) {
-        let was_live = unarmed(|| LIVE_VALUES.with(|l| l.borrow_mut().remove(&self.serial)));
+        let was_live = unarmed(|| live(|l| l.remove(&self.serial)));
         log_val(if was_live { V_DROPPED } else { V_DOUBLE_DROP }, self.tag);
     }
 }
 
 pub fn live_values() -> usize {
-    LIVE_VALUES.with(|l| l.borrow().len())
+    live(|l| l.len())
 }
 
 pub fn reset_values() {
-    LIVE_VALUES.with(|l| l.borrow_mut().clear());
+    live(|l| l.clear());
 }
 
 // ---------------------------------------------------------------------------
 
 pub trait Exec {
     fn step(&mut self, op: &[u64]) -> Obs;
+    /// A second executor over the SAME primitive with its own future slots (threaded runs:
+    /// one per thread).  A view never frees the primitive.
+    fn share(&self) -> Option<Box<dyn Exec>> {
+        None
+    }
 }
+
+/// global ticket counter for the invocation / response stamps of the threaded runs
+pub static TICKET: AtomicU64 = AtomicU64::new(0);
 
 pub fn silence_panics() {
     std::panic::set_hook(Box::new(|_| {}));
@@ -298,5 +309,18 @@ impl<F> Slots<F> {
             }
         }
         None
+    }
+}
+
+
+/// `x` as a `Y` when `X` and `Y` are the same type (used to reach the crate's non-generic
+/// convenience constructors and aliases from the generic executors)
+pub fn cast<X: 'static, Y: 'static>(x: X) -> Result<Y, X> {
+    if std::any::TypeId::of::<X>() == std::any::TypeId::of::<Y>() {
+        let y = unsafe { std::ptr::read(&x as *const X as *const Y) };
+        std::mem::forget(x);
+        Ok(y)
+    } else {
+        Err(x)
     }
 }
